@@ -341,77 +341,130 @@ def isin(v, consts):
 _rx_cache = {}
 
 
-def rx_to_z3(pattern):
-    """z3 regex for the MATCH language of `pattern`: {w | re.match(pattern, w)} (free suffix unless it ends in ``$``,
-    which also tolerates one trailing newline).  ASCII meaning of \\d \\w \\s (assumption S1)."""
-    if isinstance(pattern, re.Pattern):
-        if pattern.flags & ~re.UNICODE:
-            raise ValueError("regex flags unsupported")
-        pattern = pattern.pattern
-    if pattern in _rx_cache:
-        return _rx_cache[pattern]
-    tree = sp.parse(pattern)
-    allc = z3.AllChar(RS)
-    dollar = [False]
+MAXCHAR = 0x2FFFF
 
-    def cat(av):
-        if av == sc.CATEGORY_DIGIT:
-            return z3.Range("0", "9")
-        if av == sc.CATEGORY_WORD:
-            return z3.Union(z3.Range("0", "9"), z3.Range("a", "z"), z3.Range("A", "Z"), z3.Re("_"))
-        if av == sc.CATEGORY_SPACE:
-            return z3.Union(z3.Range("\t", "\r"), z3.Range("\x1c", " "))
-        if av == sc.CATEGORY_NOT_DIGIT:
-            return z3.Diff(allc, cat(sc.CATEGORY_DIGIT))
-        if av == sc.CATEGORY_NOT_WORD:
-            return z3.Diff(allc, cat(sc.CATEGORY_WORD))
-        if av == sc.CATEGORY_NOT_SPACE:
-            return z3.Diff(allc, cat(sc.CATEGORY_SPACE))
-        raise ValueError("regex category %s" % av)
 
-    def charset(items):
+def _zchar(c):
+    if 32 <= c < 127 and chr(c) not in '"\\':
+        return chr(c)
+    return "\\u{%x}" % c
+
+
+def ranges_to_re(ranges):
+    """sorted disjoint (lo, hi) code point ranges -> z3 regex WITHOUT complement/difference"""
+    parts = []
+    for lo, hi in ranges:
+        if lo == hi:
+            parts.append(z3.Re(z3.StringVal(_zchar(lo))))
+        else:
+            parts.append(z3.Range(z3.StringVal(_zchar(lo)), z3.StringVal(_zchar(hi))))
+    if not parts:
+        return z3.Empty(RS)
+    return parts[0] if len(parts) == 1 else z3.Union(*parts)
+
+
+def norm_ranges(ranges):
+    out = []
+    for lo, hi in sorted(ranges):
+        if out and lo <= out[-1][1] + 1:
+            out[-1] = (out[-1][0], max(out[-1][1], hi))
+        else:
+            out.append((lo, hi))
+    return out
+
+
+def complement_ranges(ranges):
+    out = []
+    cur = 0
+    for lo, hi in norm_ranges(ranges):
+        if lo > cur:
+            out.append((cur, lo - 1))
+        cur = hi + 1
+    if cur <= MAXCHAR:
+        out.append((cur, MAXCHAR))
+    return out
+
+
+def not_chars(chars):
+    """regex of one character that is none of `chars`"""
+    return ranges_to_re(complement_ranges([(ord(c), ord(c)) for c in chars]))
+
+
+_CAT = {}
+
+
+def _cat_ranges(av):
+    D = [(48, 57)]
+    W = [(48, 57), (65, 90), (95, 95), (97, 122)]
+    SP = [(9, 13), (28, 32)]
+    if av == sc.CATEGORY_DIGIT:
+        return D
+    if av == sc.CATEGORY_WORD:
+        return W
+    if av == sc.CATEGORY_SPACE:
+        return SP
+    if av == sc.CATEGORY_NOT_DIGIT:
+        return complement_ranges(D)
+    if av == sc.CATEGORY_NOT_WORD:
+        return complement_ranges(W)
+    if av == sc.CATEGORY_NOT_SPACE:
+        return complement_ranges(SP)
+    raise ValueError("regex category %s" % av)
+
+
+class _RxBuilder(object):
+    def __init__(self):
+        self.allc = z3.AllChar(RS)
+        self.dollar = False
+        self.groups = {}      # group id -> (z3 regex of the group's own sub-pattern, optional: bool)
+
+    def charset(self, items):
         neg = False
-        parts = []
+        rs = []
         for op, av in items:
             if op == sc.NEGATE:
                 neg = True
             elif op == sc.LITERAL:
-                parts.append(z3.Re(chr(av)))
+                rs.append((av, av))
             elif op == sc.RANGE:
-                parts.append(z3.Range(chr(av[0]), chr(av[1])))
+                rs.append((av[0], av[1]))
             elif op == sc.CATEGORY:
-                parts.append(cat(av))
+                rs.extend(_cat_ranges(av))
             else:
                 raise ValueError("regex set item %s" % op)
-        u = parts[0] if len(parts) == 1 else z3.Union(*parts)
-        return z3.Diff(allc, u) if neg else u
+        rs = norm_ranges(rs)
+        return ranges_to_re(complement_ranges(rs) if neg else rs)
 
-    def seq(items, tail, head):
-        rs = [node(it, tail and i == len(items) - 1, head and i == 0) for i, it in enumerate(items)]
+    def seq(self, items, tail, head, opt):
+        rs = [self.node(it, tail and i == len(items) - 1, head and i == 0, opt) for i, it in enumerate(items)]
         rs = [r for r in rs if r is not None]
         if not rs:
             return z3.Re("")
         return rs[0] if len(rs) == 1 else z3.Concat(*rs)
 
-    def node(item, tail, head):
+    def node(self, item, tail, head, opt):
         op, av = item
+        allc = self.allc
         if op == sc.LITERAL:
-            return z3.Re(chr(av))
+            return z3.Re(z3.StringVal(_zchar(av)))
         if op == sc.NOT_LITERAL:
-            return z3.Diff(allc, z3.Re(chr(av)))
+            return ranges_to_re(complement_ranges([(av, av)]))
         if op == sc.ANY:
-            return z3.Diff(allc, z3.Re("\n"))
+            return ranges_to_re(complement_ranges([(10, 10)]))
         if op == sc.IN:
-            return charset(av)
+            return self.charset(av)
         if op == sc.SUBPATTERN:
             if av[1] or av[2]:
                 raise ValueError("inline flags")
-            return seq(list(av[3]), tail, head)
+            r = self.seq(list(av[3]), tail, head, opt)
+            if av[0] is not None:
+                self.groups[av[0]] = (r, opt)
+            return r
         if op == sc.BRANCH:
-            return z3.Union(*[seq(list(a), tail, head) for a in av[1]])
+            return z3.Union(*[self.seq(list(a), tail, head, True) for a in av[1]])
         if op in (sc.MAX_REPEAT, sc.MIN_REPEAT):
             lo, hi, p = av
-            body = seq(list(p), False, False)
+            body = self.seq(list(p), False, False, opt or lo == 0)
             if hi == sc.MAXREPEAT:
                 if lo == 0:
                     return z3.Star(body)
@@ -427,29 +480,48 @@ def rx_to_z3(pattern):
             if av == sc.AT_END:
                 if not tail:
                     raise ValueError("$ not in tail position")
-                dollar[0] = True
+                self.dollar = True
                 return None
         raise ValueError("regex op %s" % op)
 
-    body = seq(list(tree), True, True)
-    if dollar[0]:
+
+def _rx_build(pattern):
+    if isinstance(pattern, re.Pattern):
+        if pattern.flags & ~re.UNICODE:
+            raise ValueError("regex flags unsupported")
+        pattern = pattern.pattern
+    key = ("b", pattern)
+    if key in _rx_cache:
+        return _rx_cache[key]
+    tree = sp.parse(pattern)
+    b = _RxBuilder()
+    body = b.seq(list(tree), True, True, False)
+    if b.dollar:
         r = z3.Concat(body, z3.Option(z3.Re("\n")))
     else:
-        r = z3.Concat(body, z3.Star(allc))
-    _rx_cache[pattern] = r
-    return r
+        r = z3.Concat(body, z3.Star(b.allc))
+    names = {v: k for k, v in tree.state.groupdict.items()}
+    groups = {}
+    for gid, (gr, opt) in b.groups.items():
+        groups[names.get(gid, gid)] = (gr, opt)
+    _rx_cache[key] = (r, groups, body)
+    return _rx_cache[key]
+
+
+def rx_to_z3(pattern):
+    """z3 regex for the MATCH language of `pattern`: {w | re.match(pattern, w)} (free suffix unless it ends in ``$``,
+    which also tolerates one trailing newline).  ASCII meaning of \\d \\w \\s (assumption S1)."""
+    return _rx_build(pattern)[0]
+
+
+def rx_groups(pattern):
+    """named/numbered groups of `pattern`: name -> (z3 regex over-approximating the captured text, may_be_None)"""
+    return _rx_build(pattern)[1]
 
 
 def rx_full(pattern):
-    """z3 regex of the whole-string language of `pattern` (no free suffix, `$` not allowed)."""
-    key = ("full", pattern)
-    if key in _rx_cache:
-        return _rx_cache[key]
-    r = rx_to_z3("(?:%s)$" % pattern)
-    # strip the optional newline: rebuild without it
-    body = r.arg(0) if r.num_args() == 2 else r
-    _rx_cache[key] = body
-    return body
+    """z3 regex of the whole-string language of `pattern` (no free suffix; pattern must not use `$`)."""
+    return _rx_build(pattern)[2]
 
 
 def matches(pattern, v):
@@ -470,4 +542,62 @@ def startswith(v, prefix):
 def contains(v, sub):
     if not isinstance(v, SV):
         return isinstance(v, str) and sub in v
-    return as_bool(z3.And(Val.is_VStr(v.t), z3.Contains(Val.s(v.t), z3.StringVal(sub))))
+    anyre = z3.Star(z3.AllChar(RS))
+    return as_bool(z3.And(Val.is_VStr(v.t), z3.InRe(Val.s(v.t), z3.Concat(anyre, z3.Re(sub), anyre))))
+
+
+# ---- dual-mode string/int helpers for spec texts -----------------------------------------------------------------
+def endswith(v, suffix):
+    if not isinstance(v, SV):
+        return isinstance(v, str) and v.endswith(suffix)
+    return as_bool(z3.And(Val.is_VStr(v.t), z3.SuffixOf(z3.StringVal(suffix), Val.s(v.t))))
+
+
+def concat(*parts):
+    """concatenation of str values (python str / SV known to be str)"""
+    if all(isinstance(p, str) for p in parts):
+        return "".join(parts)
+    return mk_str(z3.Concat(*[sstr(p) for p in parts]))
+
+
+def drop_suffix(v, n):
+    """v[:-n] for a str of length >= n"""
+    if isinstance(v, str):
+        return v[:-n]
+    s = sstr(v)
+    return mk_str(z3.SubString(s, 0, z3.Length(s) - n))
+
+
+def drop_prefix(v, n):
+    if isinstance(v, str):
+        return v[n:]
+    s = sstr(v)
+    return mk_str(z3.SubString(s, n, z3.Length(s) - n))
+
+
+def str_len(v):
+    if isinstance(v, str):
+        return len(v)
+    return mk_int(z3.Length(sstr(v)))
+
+
+def int_of_digits(v):
+    """int(v) for v in [0-9]+"""
+    if isinstance(v, str):
+        return int(v)
+    return mk_int(z3.StrToInt(sstr(v)))
+
+
+def str_of_int(i):
+    """str(i) for an int"""
+    if isinstance(i, int):
+        return str(i)
+    t = sint(i)
+    return mk_str(z3.If(t >= 0, z3.IntToStr(t), z3.Concat(z3.StringVal("-"), z3.IntToStr(-t))))
+
+
+def in_lang(v, full_pattern):
+    """v is a str in the WHOLE-STRING language of `full_pattern`"""
+    if not isinstance(v, SV):
+        return isinstance(v, str) and re.compile("(?:%s)\\Z" % full_pattern).match(v) is not None
+    return as_bool(z3.And(Val.is_VStr(v.t), z3.InRe(Val.s(v.t), rx_full(full_pattern))))
